@@ -54,6 +54,7 @@ type Stats struct {
 	BoundaryGroups int
 	BoundaryCalls  int
 	FairKicks      int
+	SimSeconds     float64
 }
 
 func newStats() *Stats {
@@ -112,6 +113,7 @@ func (st *Stats) addRun(seg *Segment, race bool, out *RunOut) {
 	st.Faults["preempt"] += r.Preempts
 	st.Faults["clock_jump"] += r.ClockJumps
 	st.FairKicks += r.FairKicks
+	st.SimSeconds += float64(r.SimNs) / 1e9
 	if seg.MapMode != 0 {
 		st.Faults["map_order"] += r.MapRanges
 	}
@@ -414,7 +416,7 @@ func (ck *Checker) writeEvidence(violations int, rule string, extra map[string]a
 		"context_switches":                    st.Switches,
 		"distinct_trace_hashes":               len(st.TraceHashes),
 		"distinct_switch_signatures":          len(st.SwitchSigs),
-		"simulated_time":                      "n/a: the library never reads a clock; the bubble's fake clock is only offset (clock_offset) so that time-dependent output would show as a result mismatch",
+		"simulated_time":                      fmt.Sprintf("%.0f s of fake-clock time passed inside the bubbles (clock_offset and clock_jump faults; the library itself never reads a clock, so no timer ever advances it)", st.SimSeconds),
 		"faults_fired":                        st.Faults,
 		"policies":                            st.Policies,
 		"workers_histogram":                   intKeys(st.Workers),
